@@ -111,7 +111,7 @@ def target_case(draw):
                     unit = None
         mods.append({"val": val, "unit": unit, "typed": draw(st.integers(0, 2)) == 0,
                      # the assigned value may be given by reference to a helper node that holds it (also 0 / false)
-                     "via_ref": kind in ("float", "int", "bool") and val != "none" and draw(st.integers(0, 3)) == 0,
+                     "via_ref": kind in ("float", "int", "bool", "str") and val != "none" and draw(st.integers(0, 3)) == 0,
                      "addr": draw(st.sampled_from(["dotted", "indent", "mixed"])),
                      "noise": draw(st.integers(0, 2)) == 0,
                      # ... or by an expression ("A u - K u") u whose result is the value (zero included); K or None
